@@ -173,7 +173,7 @@ func crashSig(stderr string) (sig string, isRepo bool) {
 			continue
 		}
 		m := panicFrameRe.FindStringSubmatch(line)
-		if m == nil || strings.HasPrefix(m[2], "verifsim") {
+		if m == nil || (strings.HasPrefix(m[2], "verifsim") && !strings.HasPrefix(m[2], "verifsim/cmdcollector")) {
 			if strings.Contains(line, "verif/harness") {
 				// reached harness code before any repo frame: harness is on top only if no repo frame was seen
 				continue
